@@ -494,7 +494,13 @@ def finish(res, level="proof"):
     ev = {"property_id": res.prop, "tier": res.tier, "seed": res.seed, "level": level, "coverage": cov,
           "assumptions": res.assumptions, "wall_s": round(time.time() - res.t0, 2), "violations": res.violations,
           "notes": res.notes, "timing": timing}
-    json.dump(ev, open(os.path.join(EVIDENCE, "%s.json" % res.prop), "w"), indent=1, default=str)
+    if os.path.realpath(REPO) == "/repo":
+        ev_path = os.path.join(EVIDENCE, "%s.json" % res.prop)
+    else:
+        # self-tests against a scratch tree (VERIF_REPO) must not overwrite the evidence of /repo
+        ev["repo_under_test"] = REPO
+        ev_path = os.path.join(run_dir(res.prop), "evidence_scratch_%d.json" % os.getpid())
+    json.dump(ev, open(ev_path, "w"), indent=1, default=str)
     if rc == 0:
         print("OK property=%s tier=%s obligations=%s evaluations=%s wall=%.1fs" % (
             res.prop, res.tier, cov.get("obligations"), cov.get("evaluations"), time.time() - res.t0))
